@@ -55,6 +55,9 @@ func (x *Exec) execInstr(bc *blockCtx, in ssa.Instruction) ([]*Edge, bool) {
 		ref := x.freshRef("new_" + i.Name())
 		key := x.heapKeyPtr(et)
 		bc.st.heaps[key] = x.sto(x.getHeap(bc.st, key), ref, x.zeroTerm(et))
+		if privateAlloc(i) {
+			x.privateRefs = append(x.privateRefs, privateRef{ref: ref, key: key, sort: x.so.SortOf(et), alloc: i})
+		}
 		set(i, &Val{Typ: i.Type(), Loc: &Loc{Ref: ref, RootTyp: et, Typ: et}})
 		return nil, false
 
@@ -513,7 +516,7 @@ func (x *Exec) sliceOp(bc *blockCtx, i *ssa.Slice) *Val {
 			}
 			lc := *base.Loc
 			x.views[ref.ID] = &viewInfo{loc: &lc, arrTyp: bt.Elem(), ref: ref}
-			x.note("slices of arrays stored inside structs are snapshot views: copy() into them is written through; element stores through them are not supported")
+			x.note("slices of arrays stored inside structs are snapshot views: copy() into them and element stores through them are written through; stores into the array itself after the view was taken are not seen by the view")
 			return &Val{Typ: i.Type(), T: x.mkSlice(ref, lo, x.b.Sub(hi, lo), x.b.Sub(n, lo))}
 		}
 		if base.Loc == nil || base.Loc.SliceR == nil || base.Loc.SliceI != nil {
@@ -1130,4 +1133,103 @@ func (x *Exec) onSend(bc *blockCtx, in ssa.Instruction, chv ssa.Value, ch *smt.T
 	x.heapSorts["G_calls"] = "(Array Int Int)"
 	h := x.getHeap(bc.st, "G_calls")
 	bc.st.heaps["G_calls"] = x.sto(h, ch, x.b.Add(x.sel(h, ch, "Int"), x.b.Int(1)))
+}
+
+// privateRef is the heap cell of a local variable that is only ever loaded,
+// stored and captured by function literals: its address is never stored in
+// memory, converted, returned or passed on as a value, so no code outside this
+// function and its literals can reach it.
+type privateRef struct {
+	ref   *smt.Term
+	key   string
+	sort  string
+	alloc *ssa.Alloc
+}
+
+func privateAlloc(a *ssa.Alloc) bool {
+	return addrOnlyDerefed(a, 0)
+}
+
+func addrOnlyDerefed(v ssa.Value, depth int) bool {
+	if depth > 3 {
+		return false
+	}
+	refs := v.Referrers()
+	if refs == nil {
+		return false
+	}
+	for _, r := range *refs {
+		switch u := r.(type) {
+		case *ssa.DebugRef:
+		case *ssa.Store:
+			if u.Val == v {
+				return false
+			}
+		case *ssa.UnOp:
+			if u.Op != token.MUL {
+				return false
+			}
+		case *ssa.MakeClosure:
+			fn, ok := u.Fn.(*ssa.Function)
+			if !ok {
+				return false
+			}
+			for k, b := range u.Bindings {
+				if b == v {
+					if k >= len(fn.FreeVars) || !addrOnlyDerefed(fn.FreeVars[k], depth+1) {
+						return false
+					}
+				}
+			}
+			// the literal itself must only be called or passed as an argument
+			if crefs := u.Referrers(); crefs != nil {
+				for _, cr := range *crefs {
+					switch c := cr.(type) {
+					case *ssa.DebugRef:
+					case *ssa.Call:
+						_ = c
+					default:
+						return false
+					}
+				}
+			}
+		default:
+			return false
+		}
+	}
+	return true
+}
+
+// preservePrivate: after every heap was made unknown by a call, the private
+// cells keep their contents unless a function literal that captures them was
+// handed to the callee (closureArgEffects deals with those).
+func (x *Exec) preservePrivate(bc *blockCtx, old map[string]*smt.Term, args []*Val) {
+	if len(x.privateRefs) == 0 {
+		return
+	}
+	captured := map[*ssa.Alloc]bool{}
+	for _, a := range args {
+		if a == nil || a.Fn == nil {
+			continue
+		}
+		for _, b := range a.Binds {
+			if b != nil && b.Loc != nil && b.Loc.Ref != nil {
+				for _, pr := range x.privateRefs {
+					if pr.ref == b.Loc.Ref {
+						captured[pr.alloc] = true
+					}
+				}
+			}
+		}
+	}
+	for _, pr := range x.privateRefs {
+		if captured[pr.alloc] {
+			continue
+		}
+		o, ok := old[pr.key]
+		if !ok {
+			continue
+		}
+		bc.st.heaps[pr.key] = x.sto(x.getHeap(bc.st, pr.key), pr.ref, x.sel(o, pr.ref, pr.sort))
+	}
 }
